@@ -243,7 +243,13 @@ def judge (conf : Conf) (evs obs : List String) : J := Id.run do
             match en.splitOn "=" with
             | [k, rest] =>
               match rest.splitOn "^" with
-              | _ :: tail => if !ps.contains ("ok:" ++ k ++ "=" ++ "^".intercalate tail) then j := j.flag s!"full-state-message-lacks-stored-content:{k}"
+              | _ :: tail =>
+                if !ps.contains ("ok:" ++ k ++ "=" ++ "^".intercalate tail) then
+                  j := j.flag s!"full-state-message-lacks-stored-content:{k}"
+                  -- a node that exchanged its full state with a node holding a tombstone has learnt of the removal
+                  match parseMsg (k ++ "=" ++ "^".intercalate tail) with
+                  | some msg => j := learn conf tn j b msg
+                  | none => pure ()
               | [] => pure ()
             | _ => pure ()
         for p in ps do
@@ -291,7 +297,8 @@ def handleRun (f : List String) : String × String × String :=
   match f with
   | [cfg, evs, obs] =>
     let conf := parseConf cfg
-    let evs := evs.splitOn " "
+    -- `ppj`: push/pull with join = true; same behaviour as join = false (tombstones are carried either way)
+    let evs := (evs.splitOn " ").map fun e => if e.startsWith "ppj!" then "pp!" ++ (e.drop 4).toString else e
     let obs := obs.splitOn " "
     if evs.length != obs.length then ("event-observation-count", "-", "-") else
     let (_, d) := replay conf evs obs
